@@ -101,3 +101,7 @@ Fixpoint policies_before (ord : list str -> list str) (cfg : cap_cfg) (port : Z)
   | c :: r => s :: policies_before ord cfg port (snd (start_conn ord cfg port s c)) r
   end.
 
+
+(* the same connection script with another ending *)
+Definition with_end (e : conn_end) (c : conn_script) : conn_script :=
+  mkConn (cs_dial_ok c) (cs_dial_now c) (cs_hs_ok c) (cs_events c) e.
